@@ -794,6 +794,45 @@ func (c *EvalCtx) call(e *ast.CallExpr) tv {
 			return tv{p.App(g, a), nil}
 		case "hb":
 			return tv{ex.bytesOfAbstract(c.asTerm(c.eval(e.Args[0]))), nil}
+		case "bitAt":
+			// bitAt(x, h): bit h of x, usable with a symbolic position (uninterpreted, linked to the
+			// per-bit Booleans of every closed fixed-width term it is applied to)
+			x := c.eval(e.Args[0])
+			h := c.asTerm(c.eval(e.Args[1]))
+			xt := c.asTerm(x)
+			if x.t != nil && !xt.hasBV {
+				ex.linkBits(xt, x.t)
+				if h.Op == "int" {
+					if bs := ex.bitsOf(xt, x.t); bs != nil && int(h.Int.Int64()) < len(bs) && h.Int.Sign() >= 0 {
+						return tv{bs[h.Int.Int64()], types.Typ[types.Bool]}
+					}
+				}
+			}
+			f := p.Func("bitAt", []*Sort{IntSort, IntSort}, BoolSort)
+			return tv{p.App(f, xt, h), types.Typ[types.Bool]}
+		case "bit":
+			// bit(x, h): bit h of a fixed-width integer (h a literal)
+			x := c.eval(e.Args[0])
+			h := c.asTerm(c.eval(e.Args[1]))
+			if x.t == nil || h.Op != "int" {
+				c.errf("bit(x, h) needs a typed integer and a literal position")
+			}
+			bs := ex.bitsOf(c.asTerm(x), x.t)
+			k := int(h.Int.Int64())
+			if bs == nil || k >= len(bs) {
+				c.errf("bit position out of range")
+			}
+			return tv{bs[k], types.Typ[types.Bool]}
+		case "isZero":
+			x := c.eval(e.Args[0])
+			if x.t == nil {
+				c.errf("isZero needs a typed value")
+			}
+			xt := c.asTerm(x)
+			if _, isSlice := x.t.Underlying().(*types.Slice); isSlice {
+				return tv{p.Eq(p.Acc(xt, 0), p.Int(0)), types.Typ[types.Bool]}
+			}
+			return tv{p.Eq(xt, ex.tm.Zero(x.t)), types.Typ[types.Bool]}
 		case "off":
 			return tv{p.Acc(c.asTerm(c.eval(e.Args[0])), 1), nil}
 		case "ref":
@@ -837,8 +876,17 @@ func (c *EvalCtx) call(e *ast.CallExpr) tv {
 		}
 		if sf, ok := ex.P.CS.Specs[id.Name]; ok {
 			var args []*Term
-			for _, a := range e.Args {
-				args = append(args, c.asTerm(c.eval(a)))
+			for i, a := range e.Args {
+				av := c.eval(a)
+				at := c.asTerm(av)
+				args = append(args, at)
+				if i < len(sf.Params) && !at.hasBV {
+					if gt := ex.specGoType(sf.Params[i].Type, specPkg(sf, c.pkgPath)); gt != nil {
+						if _, isInt := basicInt(gt); isInt && strings.HasPrefix(sf.Params[i].Type, "uint") && sf.Params[i].Type != "uint" {
+							ex.linkBits(at, gt)
+						}
+					}
+				}
 			}
 			return tv{ex.specApp(sf, args, c.pkgPath), c.specRetType(sf)}
 		}
@@ -1120,7 +1168,100 @@ func (ex *Exec) specApp(sf *SpecFn, args []*Term, pkgPath string) *Term {
 	if len(args) != len(d.Params) {
 		panic(execPanic{fmt.Sprintf("spec fn %s: %d args, want %d", sf.Name, len(args), len(d.Params))})
 	}
+	if d.Rec && d.DefBody != nil {
+		closed := true
+		lit := false
+		for _, a := range args {
+			if a.hasBV {
+				closed = false
+			}
+			if a.Op == "int" {
+				lit = true
+			}
+		}
+		if closed && lit {
+			if t := ex.expandSpec(d, args, 0); t != nil {
+				return t
+			}
+		}
+	}
 	return p.App(d, args...)
+}
+
+// expandSpec unfolds a recursive spec function applied to literal integer arguments (computation by unfolding):
+// foldUp(l, p, i, 32) becomes the 32-level nested term, shared through hash-consing. Returns nil if the
+// unfolding does not terminate within the depth limit.
+func (ex *Exec) expandSpec(d *FuncDecl, args []*Term, depth int) *Term {
+	if depth > 300 {
+		return nil
+	}
+	key := d.Name
+	for _, a := range args {
+		key += fmt.Sprintf(",%d", a.id)
+	}
+	if t, ok := ex.expandMemo[key]; ok {
+		return t
+	}
+	p := ex.p
+	m := map[*Term]*Term{}
+	for i, bv := range d.DefParams {
+		m[bv] = args[i]
+	}
+	body := p.Subst(d.DefBody, m)
+	// expand remaining recursive applications with literal arguments
+	failed := false
+	memo := map[*Term]*Term{}
+	var rec func(t *Term) *Term
+	rec = func(t *Term) *Term {
+		if failed || len(t.Args) == 0 {
+			return t
+		}
+		if r, ok := memo[t]; ok {
+			return r
+		}
+		nargs := make([]*Term, len(t.Args))
+		ch := false
+		for i, a := range t.Args {
+			nargs[i] = rec(a)
+			if nargs[i] != a {
+				ch = true
+			}
+		}
+		r := t
+		if ch {
+			r = p.rebuild(t, nargs)
+		}
+		if r.Op == "app" && r.Fn == d && !r.hasBV {
+			lit := false
+			same := true
+			for i, a := range r.Args {
+				if a.Op == "int" {
+					lit = true
+				}
+				if a != args[i] {
+					same = false
+				}
+			}
+			if lit && !same {
+				if e := ex.expandSpec(d, r.Args, depth+1); e != nil {
+					r = e
+				} else {
+					failed = true
+				}
+			} else if same {
+				failed = true // no progress
+			}
+		}
+		memo[t] = r
+		return r
+	}
+	res := rec(body)
+	if failed {
+		ex.expandMemo[key] = nil
+		return nil
+	}
+	ex.expandMemo[key] = res
+	return res
 }
 
 func specPkg(sf *SpecFn, fallback string) string {
